@@ -882,8 +882,8 @@ func binDeterminism(o corrOpts, sum *res.Summary, r *rng.R, bin string) {
 			sum.Disagree(res.Disagreement{Kind: "impl-vs-spec", Input: fmt.Sprintf("determinism seed=%d program %s alone vs together", o.seed, root), Impl: fmt.Sprintf("%d", len(alone.diags)), Model: fmt.Sprintf("%d", len(want)), Clause: "C11: whether or not unrelated packages are analysed in the same run"})
 		}
 	}
-	if mismatch || o.tier == "thorough" || o.extra["race"] == "1" {
-		// search support only: the race detector build (no claim rests on it)
+	{
+		// the race detector build: runs in every tier (the build is cached by go build after the first time)
 		raceBin := filepath.Join(scratchDir("race"), "gogreement-race")
 		defer os.RemoveAll(filepath.Dir(raceBin))
 		repo := os.Getenv("GGV_REPO")
@@ -896,8 +896,21 @@ func binDeterminism(o corrOpts, sum *res.Summary, r *rng.R, bin string) {
 		if out, err := cmd.CombinedOutput(); err != nil {
 			sum.Notes = append(sum.Notes, "race build unavailable: "+string(out)[:min(200, len(out))])
 		} else {
-			for i := 0; i < 3; i++ {
-				rr := runStandalone(raceBin, dir, nil, nil)
+			raceRuns := 4
+			if mismatch || o.tier == "thorough" {
+				raceRuns = 10
+			}
+			// a module in which every package has @ignore markers and diagnostics of several checkers: the five
+			// checkers of a package share its ignore set and run concurrently
+			raceDir := scratchDir("racemod")
+			defer os.RemoveAll(raceDir)
+			genModule(raceDir, r, 24, func(i int) gen.Options { return gen.Options{Ignores: true, TestFiles: i%4 == 0} })
+			for i := 0; i < raceRuns; i++ {
+				d := raceDir
+				if i == raceRuns-1 {
+					d = dir
+				}
+				rr := runStandalone(raceBin, d, nil, nil)
 				sum.Evaluations++
 				sum.Count("race-detector-run")
 				if strings.Contains(rr.stderr, "DATA RACE") {
